@@ -101,6 +101,9 @@ package drpcmetadata
 //@   loop 1 decreases len(buf)
 //@   loop 1 step [C11.next-entry] athead(entOK(buf)) && sameSlice(buf, athead(fldRest(buf)))
 //@   ensures [total] result1 != nil ==> result0 == nil
+//@   ghost entry rest = buf
+//@   ghost loop:1 rest = buf
+//@   check [C11.consumes-all] result1 == nil ==> len(rest) == 0
 //@   site mapstore:out assert [C11.stores-decoded-pair] bytesEq(arg0, key) && bytesEq(arg1, value) && ok && err == nil
 //@   ghost after:readEntry rk = ret1
 //@   ghost after:readEntry rv = ret2
